@@ -8,7 +8,7 @@ Inductive ekind :=
 | EUnderflow | EType | EDivZero | EOverflow | EBounds | ERead | ESeek | EMatch
 | EFlow | EUnknown | EParse | EAssert | EUser | ELimit | EConst | EIo | EExit
 | ERetUnderflow | ELoopUnderflow | EToBytestr | ESlice | EExpectName | EExpectLit
-| EInternal | EOther.
+| EInternal | EContext | EReadonly | EHeapOob | ELocalOob | EFloatLen | ELetSyntax | EMsg | EOther.
 
 (* Result of one modelled call: a value, an error value, or a Rust panic. *)
 Inductive outcome (A : Type) :=
